@@ -253,7 +253,7 @@ PARTS = {
         mc={"quick": ["MC_Handler_init.cfg"], "thorough": ["MC_Handler_init.cfg", "MC_Handler_tiny.cfg", "MC_Handler_atkq.cfg"]},
         goals_cfg="MC_Handler_goal.cfg",
         goals=["GoalSecondWay", "GoalNoRecordHs", "GoalRekeyPending", ("GoalRekeyReleasesPending", "MC_Handler_goalenr.cfg"), "GoalEnrlessDone", "GoalTimeoutAll", "GoalPendingAfterExpiredChallenge", "GoalBadSigKeepsChallenge", "GoalBadThenGoodHs", "GoalWayAfterReplay", ("GoalSendAfterRotateBack", "MC_Handler_goalrot.cfg"),
-               ("GoalForgedHs", "MC_Handler_goalatk.cfg"), ("GoalReplayedHs", "MC_Handler_goalatk.cfg")],
+               ("GoalForgedHs", "MC_Handler_goalatk.cfg"), ("GoalReplayedHs", "MC_Handler_goalatk.cfg"), ("GoalForeignEnrAnswer", "MC_Handler_goalnoenr.cfg")],
         sim={"quick": [dict(cfg="MC_Handler_sim.cfg", num=160, depth=40)], "thorough": [dict(cfg="MC_Handler_sim.cfg", num=1500, depth=60)]},
         append_ops=[{"k": "Quiesce"}],
         drive={"quick": 0, "thorough": 0},
@@ -307,7 +307,8 @@ PROPS = {
                                            "thorough": ["MC_KBuckets_b.cfg", "MC_KBuckets_4.cfg", "MC_KBuckets_5.cfg", "MC_KBuckets_mid.cfg"]})]),
     "C08": dict(parts=[dict(name="kb", mc={"quick": ["MC_KBuckets_c08q.cfg"], "thorough": ["MC_KBuckets_c08.cfg"]})]),
     "C01": dict(parts=[dict(name="handler", mc={"quick": ["MC_Handler_atkq.cfg"], "thorough": ["MC_Handler_atkq.cfg", "MC_Handler_tiny.cfg"]})]),
-    "C02": dict(parts=[dict(name="handler_mut")]),
+    # tampered datagrams (handler_mut) and the attacker / faulty-peer behaviours (handler): C02.Delivered is judged on both
+    "C02": dict(parts=[dict(name="handler_mut"), dict(name="handler", mc={"quick": [], "thorough": ["MC_Handler_atkq.cfg"]})]),
     "C03": dict(parts=[dict(name="handler", mc={"quick": ["MC_Handler_atkq.cfg"], "thorough": ["MC_Handler_atkq.cfg", "MC_Handler_tiny.cfg"]})]),
     "C04": dict(parts=[dict(name="handler")]),
     "C09": dict(parts=[dict(name="query")]),
